@@ -754,3 +754,92 @@ def c08(tr, acc, case):
                 acc.violation({"mech": "run_failed_for_recoverable_or_unknown_failure"}, f"WorkflowFailedEvent {key} is not among the unrecoverable failures {sorted(fatal)}", case)
             if f"{o['type']}:{o['msg']}" != wf[-1]["exc"]:
                 acc.violation({"mech": "run_exception_not_original"}, f"handler raised {o['type']}:{o['msg']} but WorkflowFailedEvent says {wf[-1]['exc']}", case)
+
+
+# ------------------------------------------------------------------ C09
+def _collect_model(expected):
+    from collections import Counter as C
+
+    def apply(state, arg):
+        etype, uid = arg
+        buf = list(state)
+        remaining = C(expected) - C(t for t, _ in buf)
+        if etype not in remaining:
+            return state, None  # surplus of that type: dropped (legal reading)
+        if remaining == C([etype]):
+            allv = buf + [(etype, uid)]
+            out = []
+            pool = list(allv)
+            for t in expected:
+                i = next(j for j, (tt, _) in enumerate(pool) if tt == t)
+                out.append(pool.pop(i)[1])
+            return (), tuple(out)
+        return tuple(buf + [(etype, uid)]), None
+
+    return apply
+
+
+def c09(tr, acc, case):
+    from vf import lin
+
+    spec = tr.spec
+    sp = next(s for s in spec["steps"] if s["name"] == "gather")
+    act = next(a for a in sp["acts"] if a["k"] == "collect")
+    expected = list(act["types"])
+    recs = [r for r in tr.rec.of("collect") if r["step"] == "gather"]
+    # (i) shape of every returned list, (ii) each uid in at most one returned list
+    seen_in = defaultdict(list)
+    # the engine runs collecting steps optimistically and re-runs an invocation whose buffer snapshot went stale; the
+    # *effective* result of an operation is the one of its last body (the earlier bodies' results are discarded)
+    last_bid = {}
+    for r in recs:
+        last_bid[r["uid"]] = r["bid"]
+    for r in recs:
+        acc.hit("collect_call")
+        if r["got"] is None:
+            continue
+        if last_bid[r["uid"]] != r["bid"]:
+            acc.note("list_returned_by_a_discarded_optimistic_run")
+            continue
+        acc.hit("collect_returned_list")
+        types_ = [g[0] for g in r["got"]]
+        if types_ != expected:
+            acc.violation({"mech": "collected_list_wrong_shape"}, f"collect_events returned types {types_}, expected {expected}", case)
+        for g in r["got"]:
+            seen_in[g[1]].append(r["bid"])
+    for uid, bids in seen_in.items():
+        if len(set(bids)) > 1:
+            acc.violation({"mech": "event_in_two_returned_lists"}, f"event uid={uid} was returned by {len(set(bids))} collect_events calls (bodies {sorted(set(bids))})", case)
+    # (iii) linearizability per buffer against the sequential buffer model
+    #  interval of an operation = [tick where the event got a worker slot (snapshot taken), its last result tick]
+    call_n, ret_n = {}, {}
+    for t in tr.ticks:
+        for (_wid, uid, _att, _id) in t["post"].get("gather", {}).get("ipe", []):
+            call_n.setdefault(uid, t["n"])
+        if t["tick"] == "TickStepResult" and t["step"] == "gather":
+            ret_n[t["uid"]] = t["n"]
+    final = {}
+    for r in recs:
+        final[r["uid"]] = r  # last body of the operation wins (earlier ones were optimistic runs that got re-run)
+    by_buf = defaultdict(list)
+    for uid, r in final.items():
+        if uid not in call_n or uid not in ret_n:
+            continue  # operation still open when the run ended
+        by_buf[r["buf"]].append({"id": uid, "call": call_n[uid], "ret": ret_n[uid], "arg": (r["etype"], uid),
+                                 "out": None if r["got"] is None else tuple(g[1] for g in r["got"])})
+    apply = _collect_model(expected)
+    for buf, ops in by_buf.items():
+        if len(ops) < 2:
+            continue
+        acc.hit("linearizability_eval")
+        if any(a["ret"] > b["call"] and b["ret"] > a["call"] for i, a in enumerate(ops) for b in ops[i + 1:]):
+            acc.hit("overlapping_operations")
+        try:
+            ok, order, explored = lin.check(ops, (), apply)
+        except TimeoutError:
+            acc.inconclusive.append("linearizability search budget exhausted")
+            continue
+        if not ok:
+            acc.violation({"mech": "collect_history_not_linearizable"},
+                          f"buffer {buf}: no sequential order of the {len(ops)} collect operations explains the returned values "
+                          f"{[(o['id'], o['call'], o['ret'], o['out']) for o in sorted(ops, key=lambda o: o['call'])]}", case)
